@@ -269,6 +269,11 @@ func (s *AbsfsNFS) SetAttr(node *NFSNode, attrs *NFSAttrs) error {
 		return fmt.Errorf("setattr: %w", err)
 	}
 
+	// Whatever happens from here on, cached attributes of the object are out of
+	// date afterwards - also when a later step fails after an earlier one (the
+	// chmod, say) has been applied
+	defer s.attrCache.Invalidate(node.path)
+
 	// Read current attrs with lock protection to compare
 	node.mu.RLock()
 	currentMode := node.attrs.Mode
@@ -302,9 +307,6 @@ func (s *AbsfsNFS) SetAttr(node *NFSNode, attrs *NFSAttrs) error {
 	node.attrs = attrs
 	node.attrs.Refresh() // Initialize cache validity
 	node.mu.Unlock()
-
-	// Invalidate cache after attribute changes
-	s.attrCache.Invalidate(node.path)
 	return nil
 }
 
